@@ -101,18 +101,43 @@ theorem noErr_setTsigOrTruncate (m : TsigMode) (rr : TsigRr) : NoErr (setTsigOrT
 /-- an `M` function given as `fun s => …` whose value at each `s` is that of a `NoErr` program -/
 theorem NoErr.at {α : Type} {f : M α} (h : NoErr f) (s : State) (e : WriterErr) : (f s).1 ≠ .err e := h.h s e
 
+theorem noErr_tsigBadKey (tsigRr : Tsig.ReadTsigRr) (nowT : Tsig.TimeSigned) : NoErr (tsigBadKey tsigRr nowT) := by
+  unfold tsigBadKey
+  repeat' (first | exact noErr_setTsigOrTruncate _ _ | noerr_step)
+
+theorem noErr_tsigVerifyAndWrite (hm : Tsig.Algorithm → Tsig.Octets → Tsig.Octets → Tsig.Octets)
+    (tsigRr : Tsig.ReadTsigRr) (message : List UInt8) (alg : Hmac.Alg) (secret : List UInt8)
+    (nowT : Tsig.TimeSigned) (r' : Reader.Reader) :
+    NoErr (tsigVerifyAndWrite hm tsigRr message alg secret nowT r') := by
+  constructor
+  intro s e
+  unfold tsigVerifyAndWrite
+  repeat' split
+  all_goals first
+    | (simp; done)
+    | (refine NoErr.at ?_ s e
+       repeat' (first | exact noErr_setTsigOrTruncate _ _ | noerr_step))
+
+theorem noErr_tsigProcess (hm : Tsig.Algorithm → Tsig.Octets → Tsig.Octets → Tsig.Octets) (keys : List Key)
+    (nowT : Tsig.TimeSigned) (tsigRr : Tsig.ReadTsigRr) (message : List UInt8) (r' : Reader.Reader) :
+    NoErr (tsigProcess hm keys nowT tsigRr message r') := by
+  unfold tsigProcess
+  repeat' split
+  all_goals first
+    | exact noErr_tsigBadKey _ _
+    | exact noErr_tsigVerifyAndWrite _ _ _ _ _ _ _
+
 theorem noErr_handleTsig (cfg : Cfg) (now : Nat) (p : Reader.PeekRr) (raw : Nat) :
     NoErr (handleTsig cfg now p raw) := by
   constructor
   intro s e
   unfold handleTsig
-  dsimp only
   repeat' split
   all_goals first
     | (simp; done)
+    | exact (noErr_tsigProcess _ _ _ _ _ _).h s e
     | (refine NoErr.at ?_ s e
-       repeat' noerr_step
-       all_goals exact noErr_setTsigOrTruncate _ _)
+       repeat' noerr_step)
 
 theorem noErr_scanAr (cfg : Cfg) (tr : Transport) (now arcount : Nat) :
     ∀ (n index : Nat) (st : ScanSt), NoErr (scanAr cfg tr now arcount n index st) := by
